@@ -16,7 +16,7 @@ use crate::{vensure, vfail};
 
 /// Runs the crate's decoder (shared variant) and checks it against the independent decoder,
 /// including pointer containment. Returns the number of pairs.
-fn check_decode(data: &[u8]) -> Result<usize, Fail> {
+pub fn check_decode(data: &[u8]) -> Result<usize, Fail> {
     let (exp, exp_rest) = wire::dec_pairs(data);
     let base = data.as_ptr() as usize;
     let mut it = NVIter::new(data);
@@ -56,7 +56,7 @@ fn check_decode(data: &[u8]) -> Result<usize, Fail> {
 }
 
 /// Mutable variant agrees with the shared one.
-fn check_mut_agrees(data: &[u8]) -> Result<(), Fail> {
+pub fn check_mut_agrees(data: &[u8]) -> Result<(), Fail> {
     let shared: Vec<(Vec<u8>, Vec<u8>)> = NVIter::new(data).map(|(n, v)| (n.to_vec(), v.to_vec())).collect();
     let mut copy = data.to_vec();
     let base = copy.as_ptr() as usize;
@@ -85,7 +85,7 @@ fn check_mut_agrees(data: &[u8]) -> Result<(), Fail> {
 }
 
 /// pairs(prefix) is a prefix of pairs(whole), for the given prefix lengths.
-fn check_prefixes(data: &[u8], all: bool) -> Result<usize, Fail> {
+pub fn check_prefixes(data: &[u8], all: bool) -> Result<usize, Fail> {
     let whole: Vec<(usize, usize)> = {
         let base = data.as_ptr() as usize;
         NVIter::new(data).map(|(n, v)| (n.as_ptr() as usize - base, v.as_ptr() as usize - base + v.len())).collect()
